@@ -107,6 +107,14 @@ where
     }
 }
 
+#[cfg(idsp_verif)]
+impl<Q> Unwrapper<Q> {
+    /// Verification hook: construct from raw state.
+    pub fn verif_from_raw(y: Q) -> Self {
+        Self { y }
+    }
+}
+
 #[cfg(test)]
 mod tests {
     use super::*;
